@@ -87,6 +87,31 @@ theorem refused_no_change_8181 (decode : Bytes → Option (Signed PMsg)) (srv : 
   | badSig _ _ _ _ _ => exact ⟨_, rfl, by intro e; cases e⟩
   | passed p sg hl hd hs _ _ => exact absurd ⟨sg, p, hd, hl, hs.1, hs.2⟩ h
 
+/-- Corruption: what happens depends on the bytes only through what they decode to.  So a
+corrupted copy `bytes'` of a message is treated exactly like the original if it still decodes to
+the identical signed message (same sender, recipient, payload, still validating – e.g. a flipped
+padding bit), and in every other case the theorems above apply to whatever it decodes to: refused
+without change unless that is itself validly signed with the registered key of its sender. -/
+theorem outcome_depends_on_decoding_only (decode : Bytes → Option (Signed Msg)) (ca : Ca)
+    (bytes bytes' : Bytes) (h : decode bytes' = decode bytes) :
+    rfc6492 decode ca bytes' = rfc6492 decode ca bytes := by
+  unfold rfc6492; rw [h]
+
+theorem outcome_depends_on_decoding_only_8181 (decode : Bytes → Option (Signed PMsg)) (srv : Server)
+    (publisher : Handle) (bytes bytes' : Bytes) (h : decode bytes' = decode bytes) :
+    rfc8181 decode srv publisher bytes' = rfc8181 decode srv publisher bytes := by
+  unfold rfc8181; rw [h]
+
+/-- A corrupted copy that is accepted although it does *not* decode to the original message is
+nevertheless a message validly signed with the registered key of its own claimed sender – which a
+corruption of a message signed under a one-off key cannot produce (symbolic cryptography). -/
+theorem corrupted_accepted_only_if_authentic (decode : Bytes → Option (Signed Msg)) (ca : Ca)
+    (bytes' : Bytes)
+    (hacc : (rfc6492 decode ca bytes').1 ≠ ca ∨ ∃ m, (rfc6492 decode ca bytes').2 = .replied m) :
+    ∃ sg c, decode bytes' = some sg ∧ lookup ca.children sg.body.sender = some c ∧
+      sg.signer = c.idKey ∧ sg.fresh = true :=
+  acts_only_for_registered_key decode ca bytes' hacc
+
 /-- Identity updates: once the parent has registered a new ID key for a child, a message under
 the replaced key is refused without change, whatever it asks for … -/
 theorem replaced_identity_refused (decode : Bytes → Option (Signed Msg)) (ca : Ca) (bytes : Bytes)
@@ -223,6 +248,94 @@ theorem list_only_own (ca : Ca) (child : Handle) (c : ChildRec) :
   obtain ⟨ku, ⟨_, _, ce, hce, h1, h2⟩, rfl⟩ := hk
   exact ⟨ce, hce, h1, h2⟩
 
+/-- RFC 6492, request kind by request kind – the only requests that are answered at all are list,
+issue and revoke, and each acts for the sender of the validated message:
+* **list**: the reply is the sender's entitlement: resources inside what the parent entitled it
+  to, and only certificates that were issued to the sender;
+* **issue**: the reply carries a certificate for the key of the request, issued to the sender
+  (it is in the CA's state under the sender's name afterwards), with resources inside the
+  sender's entitlement and inside the class;
+* **revoke**: the reply confirms the key of the request; either the class is unknown and nothing
+  was done, or the key is one the sender has in use. -/
+theorem acts_for_sender_by_kind (decode : Bytes → Option (Signed Msg)) (ca : Ca) (bytes : Bytes)
+    (m : Signed Msg) (h : (rfc6492 decode ca bytes).2 = .replied m) :
+    ∃ sg c, decode bytes = some sg ∧ lookup ca.children sg.body.sender = some c ∧
+      sg.signer = c.idKey ∧
+      match sg.body.payload with
+      | .list =>
+        (rfc6492 decode ca bytes).1.certs = ca.certs ∧
+        ∃ cls, m.body.payload = .listResponse cls ∧
+          ∀ e ∈ cls, subset e.2.1 c.resources = true ∧
+            ∀ k ∈ e.2.2, ∃ ce ∈ ca.certs, ce.1 = k ∧ ce.2.2.1 = sg.body.sender
+      | .issue cls key _ _ =>
+        ∃ grant res, m.body.payload = .issueResponse cls key grant ∧
+          (key, cls, sg.body.sender, grant) ∈ (rfc6492 decode ca bytes).1.certs ∧
+          lookup ca.classes cls = some res ∧
+          subset grant c.resources = true ∧ subset grant res = true
+      | .revoke cls key =>
+        m.body.payload = .revokeResponse cls key ∧
+          ((lookup ca.classes cls = none ∧ (rfc6492 decode ca bytes).1.certs = ca.certs) ∨
+            c.inUse.any (·.1 == key) = true)
+      | _ => False := by
+  have g := rfc6492_gate decode ca bytes
+  generalize rfc6492 decode ca bytes = r at g h
+  cases g with
+  | ta _ => cases h
+  | undecodable _ => cases h
+  | unknown _ _ _ => cases h
+  | badSig _ _ _ _ _ => cases h
+  | passed sg c _ hd hl hs r hr =>
+    refine ⟨sg, c, hd, hl, hs.1, ?_⟩
+    let c1 : ChildRec := { c with suspended := false }
+    let ca1 : Ca := if c.suspended then
+        { ca with children := update ca.children sg.body.sender (fun _ => c1) } else ca
+    have h1 : ca1.classes = ca.classes ∧ ca1.certs = ca.certs := by
+      simp only [ca1]; split <;> exact ⟨rfl, rfl⟩
+    cases hdp : dispatch ca1 sg.body.sender c1 sg.body.payload with
+    | mk ca2 o =>
+      have hr' : r = (match dispatch ca1 sg.body.sender c1 sg.body.payload with
+          | (ca2, none) => (ca2, .refused .processing)
+          | (ca2, some p) =>
+            (ca2, .replied { signer := ca.idKey,
+                             body := { sender := ca.handle, recipient := sg.body.sender, payload := p } })) := hr
+      rw [hdp] at hr'
+      cases o with
+      | none => rw [hr'] at h; cases h
+      | some p =>
+        rw [hr'] at h ⊢
+        simp only [Out.replied.injEq] at h
+        subst h
+        have hrep := dispatch_reply ca1 sg.body.sender c1 sg.body.payload p ca2 hdp
+        cases hpl : sg.body.payload with
+        | list =>
+          rw [hpl] at hrep
+          simp only [ReplyFor] at hrep
+          obtain ⟨e1, e2⟩ := hrep
+          refine ⟨by rw [e1]; exact h1.2, _, e2, ?_⟩
+          intro e he
+          obtain ⟨a, b⟩ := list_only_own ca1 sg.body.sender c1 e he
+          refine ⟨a, ?_⟩
+          intro k hk
+          obtain ⟨ce, hce, x⟩ := b k hk
+          exact ⟨ce, h1.2 ▸ hce, x⟩
+        | issue cls key limit csrOk =>
+          rw [hpl] at hrep
+          simp only [ReplyFor] at hrep
+          obtain ⟨grant, res, e1, e2, e3, e4, e5⟩ := hrep
+          exact ⟨grant, res, e1, e2, h1.1 ▸ e3, e4, e5⟩
+        | revoke cls key =>
+          rw [hpl] at hrep
+          simp only [ReplyFor] at hrep
+          obtain ⟨e1, e2⟩ := hrep
+          refine ⟨e1, ?_⟩
+          rcases e2 with ⟨a, b⟩ | b
+          · left; exact ⟨h1.1 ▸ a, by rw [b]; exact h1.2⟩
+          · right; exact b
+        | listResponse x => rw [hpl] at hrep; exact hrep
+        | issueResponse x y z => rw [hpl] at hrep; exact hrep
+        | revokeResponse x y => rw [hpl] at hrep; exact hrep
+        | errorResponse x => rw [hpl] at hrep; exact hrep
+
 /-- RFC 8181: an accepted request changes the files of the publisher named in the URL only, and
 of those only files under the base URI in its access record; the reply to a list query is that
 publisher's own file list. -/
@@ -295,6 +408,60 @@ theorem scope_of_accepted_8181 (decode : Bytes → Option (Signed PMsg)) (srv : 
     | listReply fs' => exact same _ (by intro m h; cases h)
     | success => exact same _ (by intro m h; cases h)
     | errorReply code => exact same _ (by intro m h; cases h)
+
+/-- RFC 8181, request kind by request kind – only list and publish/update/withdraw queries are
+answered:
+* **list**: the reply is exactly the file list of the publisher named in the URL, nothing changes;
+* **publish / update / withdraw**: either the whole delta is refused with an error reply and
+  nothing changes, or every element is under the base URI of that publisher's access record, a
+  plain publish does not overwrite an existing object, an update or withdraw names an object the
+  publisher has (same URI, same hash) – and the publisher's new file set is the old one with
+  exactly those elements applied. -/
+theorem acts_for_publisher_by_kind_8181 (decode : Bytes → Option (Signed PMsg)) (srv : Server)
+    (publisher : Handle) (bytes : Bytes) (m : Signed PMsg)
+    (h : (rfc8181 decode srv publisher bytes).2 = .replied m) :
+    ∃ sg p, decode bytes = some sg ∧ lookup srv.publishers publisher = some p ∧
+      sg.signer = p.idKey ∧
+      match sg.body with
+      | .listQuery => m.body = .listReply p.files ∧ (rfc8181 decode srv publisher bytes).1 = srv
+      | .delta els =>
+        (∃ code, m.body = .errorReply code ∧ (rfc8181 decode srv publisher bytes).1 = srv) ∨
+        (m.body = .success ∧
+          (∀ e ∈ els, e.uri.under p.base = true ∧
+            (∀ u hh, e = .publish u hh → hasUri p.files u = false) ∧
+            (∀ u old new, e = .update u old new → hasFile p.files u old = true) ∧
+            (∀ u old, e = .withdraw u old → hasFile p.files u old = true)) ∧
+          lookup (rfc8181 decode srv publisher bytes).1.publishers publisher =
+            some { p with files := els.foldl applyElem p.files })
+      | _ => False := by
+  have g := rfc8181_gate decode srv publisher bytes
+  generalize rfc8181 decode srv publisher bytes = r at g h
+  cases g with
+  | unknown _ => cases h
+  | undecodable _ _ _ => cases h
+  | badSig _ _ _ _ _ => cases h
+  | passed p sg hl hd hs r hr =>
+    refine ⟨sg, p, hd, hl, hs.1, ?_⟩
+    subst hr
+    cases hb : sg.body with
+    | listQuery =>
+      simp only [hb, Out.replied.injEq] at h ⊢
+      subst h
+      exact ⟨by first | rfl | trivial, by first | rfl | trivial⟩
+    | delta els =>
+      simp only [hb] at h ⊢
+      cases hf : els.findSome? (elemError p) with
+      | some code =>
+        simp only [hf, Out.replied.injEq] at h ⊢
+        subst h
+        exact Or.inl ⟨code, by first | rfl | trivial, by first | rfl | trivial⟩
+      | none =>
+        simp only [hf, Out.replied.injEq] at h ⊢
+        subst h
+        exact Or.inr ⟨rfl, delta_accepted p els hf, lookup_update_eq _ _ _ _ hl⟩
+    | listReply fs => simp only [hb] at h; cases h
+    | success => simp only [hb] at h; cases h
+    | errorReply code => simp only [hb] at h; cases h
 
 /-! ## The reply is signed with the server side's current identity key -/
 
